@@ -236,6 +236,11 @@ class StepOracle(Base):
             elif np.any(np.abs(np.asarray(kw["abs_sq_psi"]) - sq) > 1e-13 * sq + 1e-300):
                 bad = "abs_sq_psi"
             sv = ctx["solver"]
+            # gamma and u of the step are the layer's (gamma = 0 included: zero is a value, not "unset")
+            lay = sv.device.layer
+            if float(kw["gamma"]) != float(lay.gamma) or float(kw["u"]) != float(lay.u):
+                self.viol("step_not_built_from_current_state", "step_built_from_foreign_state",
+                          {"step": ctx["step"], "argument": "gamma/u", "passed": [float(kw["gamma"]), float(kw["u"])], "layer": [float(lay.gamma), float(lay.u)]})
             if bad is None and getattr(sv, "dynamic_epsilon", False):
                 # a time-dependent epsilon is the user's function evaluated at the time of THIS step
                 self.count("step_epsilon_checks")
